@@ -119,7 +119,9 @@ def run(index, rep, tier):
                 if call_name(c) == "suppress_unifurcations" and isinstance(c.func, ast.Attribute):
                     return True
                 kw = get_kwarg(c, "suppress_unifurcations")
-                if kw is not None and norm(kw) == "suppress_unifurcations":
+                # forwarding counts only towards a Tree-level family function (self.<pruner>(...)):
+                # Node.remove_child's own suppression is partial (it needs the parent to have a parent)
+                if kw is not None and norm(kw) == "suppress_unifurcations" and isinstance(c.func, ast.Attribute) and norm(c.func.value) in ("self", "self.seed_node"):
                     return True
             return False
 
@@ -159,6 +161,42 @@ def run(index, rep, tier):
               "extract_subtree no longer restricts unifurcation merging to nodes with exactly one surviving child")
 
     thin_clone_rule(index, rep, "R08.5")
+
+    # ---- R08.6
+    rep.rule("R08.6", "the three single-child splice-out sites (suppress_unifurcations, encode_bipartitions, extract_subtree) merge edge lengths with the same None handling: removed length None -> child unchanged; child None -> takes the removed length; both -> sum")
+    sites = [(TREE + ".suppress_unifurcations", None), (TREE + ".encode_bipartitions", None), (NODE + ".extract_subtree", None)]
+    forms = {}
+    for q, _ in sites:
+        fi = index.function(q)
+        found = None
+        for iff in ast.walk(fi.node):
+            if not isinstance(iff, ast.If):
+                continue
+            cp = compare_parts(iff.test)
+            if not (cp and cp[1] == "IsNot" and is_none(cp[2]) and norm(cp[0]).endswith("edge.length")):
+                continue
+            removed = norm(cp[0])
+            inner = [x for x in iff.body if isinstance(x, ast.If)]
+            if len(inner) != 1 or len(iff.body) != 1:
+                continue
+            cp2 = compare_parts(inner[0].test)
+            if not (cp2 and cp2[1] == "Is" and is_none(cp2[2]) and norm(cp2[0]).endswith("edge.length")):
+                continue
+            child = norm(cp2[0])
+            a = inner[0].body[0] if inner[0].body else None
+            b = inner[0].orelse[0] if inner[0].orelse else None
+            form = (
+                isinstance(a, ast.Assign) and norm(a.targets[0]) == child and norm(a.value) == removed,
+                isinstance(b, ast.AugAssign) and isinstance(b.op, ast.Add) and norm(b.target) == child and norm(b.value) == removed,
+                len(inner[0].body) == 1 and len(inner[0].orelse) == 1,
+            )
+            found = (iff, form, removed, child)
+            break
+        forms[q] = found
+        ok = found is not None and all(found[1])
+        rep.check(ok, "R08.6", fi.qualname, "length merge at the splice-out site", fn_where(fi, found[0] if found else None),
+                  "%s merges lengths canonically: `if X.len is not None: if C.len is None: C.len = X.len else: C.len += X.len`" % fi.name,
+                  "%s no longer merges the spliced-out node's edge length into its single child the way its sibling sites do (missing child length must take the removed length, otherwise the two add): path lengths through the removed node change, and extraction disagrees with in-place pruning" % fi.qualname)
 
 
 def thin_clone_rule(index, rep, rid):
